@@ -167,6 +167,18 @@ fn lsp_fixture() -> Result<&'static jbonsai::Engine, String> {
     .map_err(|e| e.clone())
 }
 
+/// The bundled voice three times in one voice set: the defaults of a freshly loaded engine do not
+/// depend on how many voices it holds.
+fn set_fixture() -> Result<&'static jbonsai::Engine, String> {
+    static E: std::sync::OnceLock<Result<jbonsai::Engine, String>> = std::sync::OnceLock::new();
+    E.get_or_init(|| {
+        let v = crate::engine_case::bundled_voice_arc().map_err(|f| f.message)?;
+        crate::engine_case::engine_from_voices(vec![v.clone(), v.clone(), v]).map_err(|f| f.message)
+    })
+    .as_ref()
+    .map_err(|e| e.clone())
+}
+
 pub struct SetterHistory;
 
 impl Prop for SetterHistory {
@@ -203,7 +215,11 @@ impl Prop for SetterHistory {
             })
             .collect();
         Case {
-            voice: if t.chance(0.4) { "lsp-fixture".into() } else { "bundled".into() },
+            voice: match t.weighted(&[9, 8, 3]) {
+                0 => "bundled".into(),
+                1 => "lsp-fixture".into(),
+                _ => "bundled-x3".into(),
+            },
             ops,
         }
     }
@@ -211,6 +227,11 @@ impl Prop for SetterHistory {
         let lsp = c.voice == "lsp-fixture";
         let engine: &jbonsai::Engine = if lsp {
             match lsp_fixture() {
+                Ok(e) => e,
+                Err(e) => fail!("fixture-load", "{}", e),
+            }
+        } else if c.voice == "bundled-x3" {
+            match set_fixture() {
                 Ok(e) => e,
                 Err(e) => fail!("fixture-load", "{}", e),
             }
@@ -330,6 +351,7 @@ impl Prop for SetterHistory {
         // the engine the condition was cloned from is untouched
         let mut r = Report::new();
         r.nontrivial = clamped >= 1 && c.ops.len() >= 3;
+        r.class(format!("voice:{}", c.voice));
         r.class_if(c.ops.is_empty(), "defaults-only");
         r.class_if(clamped > 0, "clamp-exercised");
         r.class(format!("ops:{}", match c.ops.len() { 0 => "0", 1..=4 => "1-4", 5..=12 => "5-12", _ => "13-24" }));
